@@ -24,7 +24,7 @@ func (k Keeper) UpdateTendermintValidators(ctx sdk.Ctx) (updates []abci.Validato
 	// Iterate over staked validators, highest power to lowest.
 	iterator := sdk.KVStoreReversePrefixIterator(store, types.StakedValidatorsKey)
 	defer iterator.Close()
-	for count := 0; iterator.Valid() && count < int(maxValidators); iterator.Next() {
+	for count := 0; iterator.Valid() && uint64(count) < maxValidators; iterator.Next() {
 		// get the validator address
 		valAddr := sdk.Address(iterator.Value())
 		// return the validator from the current store
